@@ -1,4 +1,5 @@
 import Moyo.Proofs.OracleSite
+import Moyo.Proofs.OracleC05
 import Moyo.Spec.C07
 /-
 Soundness lemmas for the C07 oracles (`Oracle.checkC07orbits`, `Oracle.checkC07wyckoff`): a silent
@@ -232,7 +233,7 @@ theorem atomOk_sound {cs : CaseQ} {d : DatasetQ} {ops : List HOp} {cen : Centeri
     have hreach : (WCtx.build cs d ops cen).reach = (List.range cs.cell.n).map fun l =>
         if d.orbits[l]! == l then
           match (landingSites cs d ((4 * d.symprec) * (4 * d.symprec)))[l]! with
-          | some j => siteImages d ops j
+          | some j => siteImages d ops j ((4 * d.symprec) * (4 * d.symprec))
           | none => []
         else [] := rfl
     rw [hreach, map_range_getElem! _ s1, if_pos (by simpa using s2)] at e2
@@ -241,7 +242,7 @@ theorem atomOk_sound {cs : CaseQ} {d : DatasetQ} {ops : List HOp} {cen : Centeri
     swap
     · simp at e2
     rename_i jl hjl
-    have hmemj : j ∈ siteImages d ops jl := by simpa using e2
+    have hmemj : j ∈ siteImages d ops jl ((4 * d.symprec) * (4 * d.symprec)) := by simpa using e2
     unfold siteImages at hmemj
     simp only [List.mem_filterMap] at hmemj
     obtain ⟨g, hg, hfind⟩ := hmemj
@@ -285,6 +286,78 @@ theorem labelsSeparated_sound {cs : CaseQ} {d : DatasetQ} {ops : List HOp} {cen 
   intro g hg
   simp only [List.all_eq_true, Bool.not_eq_true'] at this
   exact this g hg
+
+/-- Membership in `siteImages`: some operation carries site `sl` onto site `sj` (same species). -/
+theorem siteImages_mem_sound {d : DatasetQ} {ops : List HOp} {sl sj : Nat} {r2 : Rat}
+    (h : sj ∈ siteImages d ops sl r2) :
+    ∃ g ∈ ops, sj < d.stdCell.n ∧ d.stdCell.num[sj]! = d.stdCell.num[sl]! ∧
+      PeriodicWithin d.stdCell.lat (siteDiff d g sl sj) r2 := by
+  unfold siteImages at h
+  simp only [List.mem_filterMap] at h
+  obtain ⟨g, hg, hfind⟩ := h
+  obtain ⟨h1, h2, h3⟩ := find_sound hfind
+  exact ⟨g, hg, h1, h2, h3⟩
+
+/-- Conversely, when like sites of std_cell are separated by more than the tolerance, an operation
+carrying `sl` onto `sj` puts `sj` into `siteImages`. -/
+theorem siteImages_mem_complete {d : DatasetQ} {ops : List HOp} {sl sj : Nat} {r2 : Rat}
+    (hS : d.stdCell.lat.det ≠ 0) (hw : Window d.stdCell.lat r2) (hsep : Separated d.stdCell r2)
+    (hj : sj < d.stdCell.n) (hnum : d.stdCell.num[sj]! = d.stdCell.num[sl]!)
+    {g : HOp} (hg : g ∈ ops) (hp : PeriodicWithin d.stdCell.lat (siteDiff d g sl sj) r2) :
+    sj ∈ siteImages d ops sl r2 := by
+  unfold siteImages
+  simp only [List.mem_filterMap]
+  exact ⟨g, hg, find_eq_some_of_separated hS hw hsep hj hnum hp⟩
+
+/-- What `labelsMatchOps` certifies. -/
+theorem labelsMatchOps_sound {cs : CaseQ} {d : DatasetQ} {ops : List HOp} {cen : Centering}
+    (h : labelsMatchOps cs d (WCtx.build cs d ops cen) = true) : LabelsMatchOps cs d ops := by
+  have hsites : (WCtx.build cs d ops cen).sites = landingSites cs d ((4 * d.symprec) * (4 * d.symprec)) := rfl
+  have hreach : (WCtx.build cs d ops cen).reach = (List.range cs.cell.n).map fun l =>
+      if d.orbits[l]! == l then
+        match (landingSites cs d ((4 * d.symprec) * (4 * d.symprec)))[l]! with
+        | some j => siteImages d ops j ((4 * d.symprec) * (4 * d.symprec))
+        | none => []
+      else [] := rfl
+  unfold labelsMatchOps at h
+  simp only [List.all_eq_true, List.mem_range, Bool.or_eq_true, Bool.not_eq_true', beq_eq_false_iff_ne, ne_eq] at h
+  rw [hsites, hreach] at h
+  -- every label atom lands, because it is related to itself
+  have self : ∀ l, l < cs.cell.n → d.orbits[l]! = l →
+      ∃ sl, (landingSites cs d ((4 * d.symprec) * (4 * d.symprec)))[l]! = some sl := by
+    intro l hl ho
+    rcases h l hl with hne | hall
+    · exact absurd ho hne
+    rcases hall l hl with hne | hm
+    · exact absurd rfl hne
+    rw [map_range_getElem! _ hl, if_pos (by simpa using ho)] at hm
+    cases hs : (landingSites cs d ((4 * d.symprec) * (4 * d.symprec)))[l]! with
+    | some sl => exact ⟨sl, rfl⟩
+    | none =>
+      rw [hs] at hm
+      simp at hm
+  intro l j hl hj ho hnum
+  obtain ⟨sl, hsl⟩ := self l hl ho
+  rcases h l hl with hne | hall
+  · exact absurd ho hne
+  rcases hall j hj with hne | hm
+  · exact absurd hnum hne
+  rw [map_range_getElem! _ hl, if_pos (by simpa using ho), hsl] at hm
+  split at hm
+  swap
+  · cases hm
+  rename_i sj hsj
+  refine ⟨sl, sj, landing_sound hl hsl, landing_sound hj hsj, ?_⟩
+  simp only at hm
+  constructor
+  · intro e
+    have : (d.orbits[j]! == l) = true := by simpa using e
+    rw [this] at hm
+    simpa using hm.symm
+  · intro e
+    have : (siteImages d ops sl ((4 * d.symprec) * (4 * d.symprec))).contains sj = true := by simpa using e
+    rw [this] at hm
+    simpa using hm
 
 /-! ### helpers for concrete instances -/
 
